@@ -411,9 +411,12 @@ def run_expl(case):
         resize_diff = max(resize_diff, float("inf") if np.isnan(diff).any() else float(diff.max()))
         lows.append(f2l(low))
         outs.append([float(v) for v in scores])
-    if case["kind"] == "sobol_expl" and any(len(set(o[:n])) == 1 for o in outs):
-        # guard: the outputs on A are all equal (zero variance): every estimator divides by 0; outside the property
-        return dict(skip="zero variance of the outputs on A", outputs=outs)
+    if case["kind"] == "sobol_expl":
+        # guard: the outputs on A (or, for Glen, on some C_i) are all equal (zero variance): the estimator divides
+        # by 0; outside the property (Var > 0)
+        blocks = [0] + ([2 + i for i in range(g * g)] if case["est"] == "Glen" else [])
+        if any(len(set(o[b * n:(b + 1) * n])) == 1 for o in outs for b in blocks):
+            return dict(skip="zero variance of the outputs on a design block", outputs=outs)
     res = dict(masks=rows(masks), masks_shape=list(masks.shape), lows=lows, outputs=outs, out_shape=list(out.shape),
                resize_diff=resize_diff, x0=baselines(case))
     if case["kind"] == "sobol_expl" and case["est"] == "Glen":
@@ -425,15 +428,29 @@ def run_expl(case):
     return res
 
 
+def _finite(v, path="result"):
+    if isinstance(v, dict):
+        for key, w in v.items():
+            _finite(w, f"{path}.{key}")
+    elif isinstance(v, (list, tuple)):
+        for j, w in enumerate(v):
+            _finite(w, f"{path}[{j}]")
+    elif isinstance(v, float) and (v != v or v in (float("inf"), float("-inf"))):
+        raise AssertionError(f"non-finite value {v} at {path} on a non-degenerate configuration")
+
+
 def run_impl(case):
     k = case["kind"]
     if k == "est":
-        return run_est(case)
-    if k == "design":
-        return run_design(case)
-    if k == "hsic_est":
-        return run_hsic_est(case)
-    return run_expl(case)
+        res = run_est(case)
+    elif k == "design":
+        res = run_design(case)
+    elif k == "hsic_est":
+        res = run_hsic_est(case)
+    else:
+        res = run_expl(case)
+    _finite(res)
+    return res
 
 
 # ----------------------------------------------------------------------------- Coq terms
@@ -519,6 +536,9 @@ def term_expl(case, res):
     ok_resize = core.cbool(res["resize_diff"] <= TOL_RESIZE)
     if case["kind"] == "sobol_expl":
         d = f"({g} * {g})"
+        # explainer.masks must be a replicated design: A, B (first 2n rows) then the blocks C_i, values in [0,1]
+        structure = (f"(let ms := {masks} in rows_are ({n} * ({d} + 2)) {d} ms && in01 ms && "
+                     f"qlist2_eqb (replicated_design {d} (firstn {n} ms) (firstn {n} (skipn {n} ms))) ms)")
         if case["est"] == "Glen":
             # one root table per input, keyed by the radicands the model computes from ITS outputs: the harness roots
             # come from the recorded outputs, which are only float-close to the model's; so Glen end to end is
@@ -527,9 +547,9 @@ def term_expl(case, res):
             for o, r, low in zip(res["outputs"], res["roots"], res["lows"]):
                 terms.append(f"(let o := {core.cqlist(o)} in roots_ok (glen_radicands o {n} {d}) {core.cqlist(r)} && "
                              f"lclose {TOL_EST} {est_fun('Glen', n, d, 'o', r)} {core.cqlist(low)})")
-            return f"{ok_resize} && rows_are ({n} * ({d} + 2)) {d} {masks} && " + " && ".join(terms)
+            return f"{ok_resize} && {structure} && " + " && ".join(terms)
         name = "jansen" if case["est"] == "default" else case["est"].lower()
-        return (f"{ok_resize} && rows_are ({n} * ({d} + 2)) {d} {masks} && "
+        return (f"{ok_resize} && {structure} && "
                 f"lclose2 {TOL_EXPL} (sobol_explain {score} {name} {pf_term(case, res)} {geo} {n} {masks} {xs} {ts}) "
                 f"{cmat(res['lows'])}")
     est = "Binary" if case["est"] == "default" else case["est"]
